@@ -27,6 +27,7 @@ CHECKS.update({
  "C04": _chain("C04", "bridge", "Every Deposit appearing in the block's deposit cache is matched, inside the same transaction diff, with an equal credit of the named bridge in the bridge's asset; failed executions add no deposit or deposit event; (bridge, withdrawal event id) pairs are honoured at most once per history across unlock / bridge transfer / ICS-20 withdrawal, with reuse attempts generated on purpose."),
  "C05": _chain("C05", "paths", "Three nodes and a lab node execute every decided block along independently drawn legal ABCI paths (proposer, validator after abandoned honest or corrupted rounds, syncer, restarted node); FinalizeBlock response digests, app hashes and full-state digests must agree on every height and no legal call may fail or panic on one path only."),
  "C18": _chain("C18", "ibc", "Outgoing withdrawals (trace and ibc/ spelling, plain and bridge senders) and incoming packets / acks / time-outs are driven through the real Ics20Transfer handlers; an independent ICS-20 ledger per (channel, sequencer-origin asset) must equal the escrow keys after every step, error-acknowledged receives must change nothing but the ack record, successful ones exactly what the source/sink rule says (incl. the bridge deposit).", note="packets are driven at the penumbra AppHandler boundary (no ICS-23 proof verification); each outgoing packet is resolved at most once, as IBC core guarantees"),
+ "C14": _chain("C14", "validators", "Sequences of validator add / update / remove actions (several per block, repeated keys, removals on 1-3 validator sets) across pre-Aspen blocks, the Aspen upgrade block and post-Aspen blocks; every FinalizeBlock.validator_updates batch is folded over the genesis set with CometBFT's rules and compared after every block with the set and count the application stores (both storage formats read through the crate's own getters on the committed snapshot)."),
 })
 
 CHECKS["C13"] = dict(engine="mempool-walk", cat="exploration", ref="DESIGN.md §5 C13",
